@@ -48,6 +48,16 @@
 #else
 #define COV_dialer_start(c)
 #endif
+#if defined(VP_COVER_listener_shutdown_0) || defined(VP_COVER_listener_shutdown_1) || defined(VP_COVER_listener_shutdown_2)
+#define COV_listener_shutdown(c) COVER_ON(c)
+#else
+#define COV_listener_shutdown(c)
+#endif
+#if defined(VP_COVER_dialer_shutdown_0) || defined(VP_COVER_dialer_shutdown_1) || defined(VP_COVER_dialer_shutdown_2)
+#define COV_dialer_shutdown(c) COVER_ON(c)
+#else
+#define COV_dialer_shutdown(c)
+#endif
 #ifdef VP_COVER_listener_start_pipe
 #define COV_listener_start_pipe(c) COVER_ON(c)
 #else
@@ -309,9 +319,10 @@ COV_listener_start(RV == 0) COV_listener_start(RV == NNG_ESTATE) COV_listener_st
 /* stopping: transport closed first (aborts a pending accept), then both aios
  * stopped (their callbacks have run and nothing new can be started on them),
  * then the transport's stop -- in this order */
-#define STOP_POST(data) \
-__CPROVER_ensures(g_epclose_calls == OLD(g_epclose_calls) + 1 && g_epclose_data == (data) && g_epstop_calls == OLD(g_epstop_calls) + 1 && g_epstop_data == (data) && g_aiostop_calls == OLD(g_aiostop_calls) + 2) \
-__CPROVER_ensures(g_seq == OLD(g_seq) + 4 && g_epclose_seq == OLD(g_seq) + 1 && g_aiostop_seq_a == OLD(g_seq) + 2 && g_aiostop_seq_b == OLD(g_seq) + 3 && g_epstop_seq == OLD(g_seq) + 4)
+#define STOP_POST_C(c, data) \
+__CPROVER_ensures((c) ==> (g_epclose_calls == OLD(g_epclose_calls) + 1 && g_epclose_data == (data) && g_epstop_calls == OLD(g_epstop_calls) + 1 && g_epstop_data == (data) && g_aiostop_calls == OLD(g_aiostop_calls) + 2)) \
+__CPROVER_ensures((c) ==> (g_seq == OLD(g_seq) + 4 && g_epclose_seq == OLD(g_seq) + 1 && g_aiostop_seq_a == OLD(g_seq) + 2 && g_aiostop_seq_b == OLD(g_seq) + 3 && g_epstop_seq == OLD(g_seq) + 4))
+#define STOP_POST(data) STOP_POST_C(1, data)
 #define G_STOP g_seq, g_epclose_calls, g_epclose_seq, g_epclose_data, g_epstop_calls, g_epstop_seq, g_epstop_data, g_aiostop_calls, g_aiostop_seq_a, g_aiostop_seq_b
 void nni_listener_stop(nni_listener *l)
 __CPROVER_requires(FRESH(l, *l) && L_OPS_OK(l) && g_aio_a == &l->l_tmo_aio && g_aio_b == &l->l_acc_aio)
@@ -347,8 +358,18 @@ COV_dialer_timer_cb(DD->d_tmo_aio.a_result == 0) COV_dialer_timer_cb(DD->d_tmo_a
 
 /* connect completion */
 #define DU OLD(DD->d_user_aio)
+/* the same contract is checked in two runs that split on the connect result
+ * (disjoint and exhaustive: EP_CC_OK: result 0, EP_CC_FAIL: result != 0) */
+#if defined(EP_CC_OK)
+#define CC_CASE (DR == 0)
+#elif defined(EP_CC_FAIL)
+#define CC_CASE (DR != 0)
+#else
+#define CC_CASE 1
+#endif
 static void dialer_connect_cb(void *arg)
 __CPROVER_requires(FRESH(arg, nni_dialer) && FRESH(DD->d_sock, SOCKT) && D_OPS_OK(DD) && VP_NO_LOCK_HELD)
+__CPROVER_requires(CC_CASE)
 __CPROVER_requires(DD->d_user_aio == NULL || FRESH(DD->d_user_aio, nni_aio))
 /* the completed connect was the dialer's only activity: no pipe owned, nothing outstanding */
 __CPROVER_requires(!g_con_busy && DD->d_pipe == NULL && EP_RT_INV(DD))
@@ -408,6 +429,59 @@ void nni_dialer_stop(nni_dialer *d)
 __CPROVER_requires(FRESH(d, *d) && D_OPS_OK(d) && g_aio_a == &d->d_tmo_aio && g_aio_b == &d->d_con_aio)
 __CPROVER_assigns(G_STOP)
 STOP_POST(d->d_data)
+;
+
+/* ------------------------------------------- socket.c: endpoint shutdown */
+/* the endpoint's pipe list with EP_NP members (g_mp1, g_mp2: the member pipes);
+ * one unit per EP_NP in {0,1,2} -- the list length is the bound of these units */
+#ifndef EP_NP
+#define EP_NP 0
+#endif
+#define HEADP(list) (&(list).ll_head)
+#if EP_NP == 0
+#define EPLIST_PRE(list) ALIAS(HEADP(list), (list).ll_head.ln_next)
+#define EPLIST_ASSIGNS
+#define EPLIST_CLOSED 1
+#define EPLIST_OPEN_BEFORE 0
+#define EPLIST_SAME 1
+#elif EP_NP == 1
+#define EPLIST_PRE(list) (FRESH(g_mp1, nni_pipe) && ALIAS(&g_mp1->p_ep_node, (list).ll_head.ln_next) && ALIAS(HEADP(list), g_mp1->p_ep_node.ln_next))
+#define EPLIST_ASSIGNS , g_mp1->p_closed
+#define EPLIST_CLOSED EP_PCLOSED(g_mp1)
+#define EPLIST_OPEN_BEFORE (OLD(EP_PCLOSED(g_mp1)) ? 0 : 1)
+#define EPLIST_SAME (EP_PCLOSED(g_mp1) == OLD(EP_PCLOSED(g_mp1)))
+#else
+#define EPLIST_PRE(list) (FRESH(g_mp1, nni_pipe) && FRESH(g_mp2, nni_pipe) && ALIAS(&g_mp1->p_ep_node, (list).ll_head.ln_next) && ALIAS(&g_mp2->p_ep_node, g_mp1->p_ep_node.ln_next) && ALIAS(HEADP(list), g_mp2->p_ep_node.ln_next))
+#define EPLIST_ASSIGNS , g_mp1->p_closed, g_mp2->p_closed
+#define EPLIST_CLOSED (EP_PCLOSED(g_mp1) && EP_PCLOSED(g_mp2))
+#define EPLIST_OPEN_BEFORE ((OLD(EP_PCLOSED(g_mp1)) ? 0 : 1) + (OLD(EP_PCLOSED(g_mp2)) ? 0 : 1))
+#define EPLIST_SAME (EP_PCLOSED(g_mp1) == OLD(EP_PCLOSED(g_mp1)) && EP_PCLOSED(g_mp2) == OLD(EP_PCLOSED(g_mp2)))
+#endif
+/* shutting an endpoint down (first step of endpoint close and of socket
+ * close): happens once; the transport endpoint and both aios are stopped (so
+ * no accept / connect / timer can be started again), then EVERY pipe of the
+ * endpoint is closed, i.e. handed to the reaper (which posts REM_POST) unless
+ * it already was */
+#define SHUTDOWN_POST(closing, data) \
+__CPROVER_ensures(VP_NO_LOCK_HELD && EP_FLAG(closing)) \
+__CPROVER_ensures(OLD(EP_FLAG(closing)) ==> (g_seq == OLD(g_seq) && g_reap_calls == OLD(g_reap_calls) && EPLIST_SAME)) \
+STOP_POST_C(!OLD(EP_FLAG(closing)), data) \
+__CPROVER_ensures(!OLD(EP_FLAG(closing)) ==> (EPLIST_CLOSED && g_reap_calls == OLD(g_reap_calls) + EPLIST_OPEN_BEFORE))
+
+void nni_listener_shutdown(nni_listener *l)
+__CPROVER_requires(FRESH(l, *l) && FRESH(l->l_sock, SOCKT) && L_OPS_OK(l) && g_aio_a == &l->l_tmo_aio && g_aio_b == &l->l_acc_aio && VP_NO_LOCK_HELD)
+__CPROVER_requires(l->l_pipes.ll_offset == offsetof(nni_pipe, p_ep_node) && EPLIST_PRE(l->l_pipes))
+__CPROVER_assigns(l->l_closing, G_STOP, G_REAP, VP_SYNC_GHOSTS EPLIST_ASSIGNS)
+SHUTDOWN_POST(l->l_closing, l->l_data)
+COV_listener_shutdown(!OLD(EP_FLAG(l->l_closing)) && g_reap_calls == OLD(g_reap_calls) + EP_NP) COV_listener_shutdown(OLD(EP_FLAG(l->l_closing)))
+;
+
+void nni_dialer_shutdown(nni_dialer *d)
+__CPROVER_requires(FRESH(d, *d) && FRESH(d->d_sock, SOCKT) && D_OPS_OK(d) && g_aio_a == &d->d_tmo_aio && g_aio_b == &d->d_con_aio && VP_NO_LOCK_HELD)
+__CPROVER_requires(d->d_pipes.ll_offset == offsetof(nni_pipe, p_ep_node) && EPLIST_PRE(d->d_pipes))
+__CPROVER_assigns(d->d_closing, G_STOP, G_REAP, VP_SYNC_GHOSTS EPLIST_ASSIGNS)
+SHUTDOWN_POST(d->d_closing, d->d_data)
+COV_dialer_shutdown(!OLD(EP_FLAG(d->d_closing)) && g_reap_calls == OLD(g_reap_calls) + EP_NP) COV_dialer_shutdown(OLD(EP_FLAG(d->d_closing)))
 ;
 /* clang-format on */
 #endif
